@@ -304,10 +304,14 @@ def load_experiment(
         metadata = None
     try:
         results_fname = ST_RESULTS_DATAFRAME_FILENAME
+        # Missing values are written as empty fields. Text such as "None" or
+        # "NA" is a value (of a categorical hyperparameter, say), not a
+        # missing one
+        read_kwargs = dict(keep_default_na=False, na_values=[""])
         if (path / results_fname).exists():
-            results = pd.read_csv(path / results_fname)
+            results = pd.read_csv(path / results_fname, **read_kwargs)
         else:
-            results = pd.read_csv(path / results_fname[:-4])
+            results = pd.read_csv(path / results_fname[:-4], **read_kwargs)
     except Exception:
         results = None
     if load_tuner:
